@@ -20,6 +20,12 @@ func MonitorsFor(prop string) []Monitor {
 		return []Monitor{&monC08{}}
 	case "C09":
 		return []Monitor{&monC09{}}
+	case "C10":
+		return []Monitor{&monC10{}}
+	case "C11":
+		return []Monitor{&monC11{}}
+	case "C12":
+		return []Monitor{&monC12{}}
 	case "C17":
 		return []Monitor{&monC17{}}
 	}
